@@ -21,7 +21,8 @@ CONSTANTS NAdd(_, _),   \* amount + amount
           NMulS(_, _),  \* amount * native natural
           NCanon(_),    \* amount is a canonical ZIP 318 denomination ({1,2,5}*10^k in [0.01, 10000] ZEC)
           MaxMoney,     \* amount: the largest representable value
-          FoldCap       \* native: the most dust AddDustToFee may fold into the fee (10 * MINIMUM_FEE)
+          FoldCap,      \* native: the most dust AddDustToFee may fold into the fee (10 * MINIMUM_FEE)
+          KnownOrchardOutputs  \* BOOLEAN: known finding C07-orchard-outputs-after-nu63 is open (see OrchardNeverGains)
 
 NLt(a, b) == ~NLe(b, a)
 NZero == NOf(0)
@@ -165,7 +166,20 @@ DustOK(q, d, a) ==
 
 \* after NU6.3 no value may enter the Orchard pool: Orchard change only from Orchard inputs and
 \* strictly less than they remove
-TurnstileA(q, d, a) == d.nu63 => (a.man.o = 0 \/ NLt(a.orchard, NSum(q.oin)))
+ChangeTurnstile(q, d, a) == d.nu63 => (a.man.o = 0 \/ NLt(a.orchard, NSum(q.oin)))
+
+\* the literal law of the property: after NU6.3 the Orchard pool never gains value,
+\*   Sigma requested Orchard outputs + Sigma Orchard change <= Sigma Orchard inputs.
+\* Known finding C07-orchard-outputs-after-nu63 (known_findings.json): on the pinned tree a request that
+\* itself carries Orchard output value after NU6.3 is not refused, and change is routed by comparing the
+\* change bound with the Orchard inputs only.  Exactly that class -- positive requested Orchard output
+\* value -- is excused while the entry is open (KnownOrchardOutputs, set by checks/c07.py from the file);
+\* a gain of the pool without requested Orchard outputs is never excused.
+InKnownOrchardClass(q, d) == d.nu63 /\ NSum(q.oout) # NZero
+OrchardNeverGains(q, d, a) == d.nu63 => NLe(NAdd(NSum(q.oout), a.orchard), NSum(q.oin))
+TurnstileA(q, d, a) ==
+    /\ ChangeTurnstile(q, d, a)
+    /\ OrchardNeverGains(q, d, a) \/ (KnownOrchardOutputs /\ InKnownOrchardClass(q, d))
 
 \* the recorded padding is the padding of the final shape
 DummyOK(d, a, o) == o.hasDummy /\ o.dummy = Dummies(d.sh, a.man)
@@ -280,7 +294,9 @@ Diagnose(q, o) ==
                           zeroTransparentChangeOmitted |-> ZeroTransparentChangeOmitted(q, d, a, o),
                           dustFolded |-> DustFolded(q, d, a, o)],
              notesWanted |-> [p \in d.cand |-> d.pool[p].notes],
-             dust |-> DustOK(q, d, a), turnstile |-> TurnstileA(q, d, a), dummy |-> DummyOK(d, a, o),
+             dust |-> DustOK(q, d, a), turnstile |-> TurnstileA(q, d, a),
+             orchardChangeBelowInputs |-> ChangeTurnstile(q, d, a), orchardNeverGains |-> OrchardNeverGains(q, d, a),
+             dummy |-> DummyOK(d, a, o),
              dummyWanted |-> Dummies(d.sh, a.man)]
         ELSE IF o.k = "insufficient" THEN
             [kind |-> "insufficient", sumIn |-> d.in, sumOut |-> d.out,
